@@ -177,7 +177,8 @@ CONFIG["C19"] = dict(
 
 CONFIG["C13"] = dict(
     modules=["CanVerif.Props.C13", "CanVerif.Props.C13Code"],
-    level_text="Kernel-checked Lean theorems: Props/C13.lean proves, for every reachable state of every interleaving of any number of threads that each run a well-locked region under one mutex (runner goroutines and application goroutines alike), that a thread in front of a state access holds the lock, a thread in front of a hook call, a transmission or a return does not, and that two threads are never both in front of an access (C13_sound, C13_race_free). Props/C13Code.lean re-checks by decide, on every run, that the three regions of pkg/canrunner/run.go — extracted from the working tree by harness/cmd/extract (go/ast, fail-closed) — are well locked, contain all the accesses the property lists, and marshal the frame after the before-transmit hook. The real RunMessageReceiver/RunMessageTransmitter are driven with step-controlled fakes that check the lock holder at every access and hook call; their call traces are compared with the model.",
+    t2_modules=["CanVerif.Props.C13Code"],
+    level_text="Kernel-checked Lean theorems: Props/C13.lean proves, for every reachable state of every interleaving of any number of threads that each run a well-locked region under one mutex (runner goroutines and application goroutines alike), that a thread in front of a state access holds the lock, a thread in front of a hook call, a transmission or a return does not, and that two threads are never both in front of an access (C13_sound, C13_race_free). Every goroutine body of pkg/canrunner (receiver, transmitter, Run and the function literals it spawns) is translated from the working tree on every run into a structured program (harness/cmd/extract: go/types, package-local calls, methods and closures inlined; Gen/RunnerProg.lean); Model/Prog.lean holds an abstract interpreter over such programs for finite-state monitors, proved sound for every partial and complete execution (Lemmas/Prog.lean chk_sound); Props/C13Code.lean re-checks by decide that every body passes the lock monitor (accesses only while holding the lock, hook calls / transmissions / returns only while not, lock and unlock alternating), that the frame is marshalled after the latest hook call on every path to a transmission, and that all the accesses the property lists occur. If the translator does not cover the current source shape the run says so (coverage.tie_notes) and rests on the correspondence run. The real RunMessageReceiver/RunMessageTransmitter are driven with step-controlled fakes that check the lock holder at every access and hook call; their call traces are compared with the model.",
     level_note="Trusted: Lean kernel; the extractor's classification of calls (message methods = state accesses, Lock/Unlock, hook variables, TransmitFrame); sync.Mutex and the Go memory model (lock-protected accesses do not race) are assumed, not modelled below mutex granularity.",
     level="proof",
     trivial=r"^$",
@@ -208,12 +209,12 @@ def _extract_runner(work):
     r = subprocess.run(["go", "run", "./cmd/extract", "runner", os.environ.get("VERIF_REPO", "/repo"), out],
                        cwd=os.path.join(here, "harness"), env=env, stdout=subprocess.PIPE, stderr=subprocess.STDOUT, text=True)
     if r.returncode != 0:
-        # fail closed: leave a file that does not satisfy the obligations, so the proof step reports them broken
-        open(out, "w").write("import CanVerif.Model.Runner\nnamespace CanVerif.Gen\nopen CanVerif\n"
-                             "def receiverBody : List Atom := [.access \"extraction failed\"]\n"
-                             "def transmitBody : List Atom := [.access \"extraction failed\"]\n"
-                             "def setCyclicBody : List Atom := [.access \"extraction failed\"]\nend CanVerif.Gen\n")
-        return "extract runner: " + r.stdout[-500:]
+        # the translator refused this source shape (or the package does not type-check): no regenerated tie on this run
+        try:
+            os.unlink(out)
+        except OSError:
+            pass
+        return "UNAVAILABLE: T2 translator (harness/cmd/extract) does not cover the current pkg/canrunner: " + r.stdout[-500:].strip()
     return ""
 
 
